@@ -22,14 +22,65 @@ RULE = (
     "every meta cites the declaration's own line of the source; for a few schemas per run the documented "
     "`python -m fcp encode` command line is executed and its output file compared; for every third "
     "schema the same tree object is first used by 2-6 other consumers (verifier, packed layouts, the "
-    "dbc / can_c / cpp / nop generators) and reflected afterwards.  distinct = grammar-feature set of "
+    "dbc / can_c / cpp / nop generators) and reflected afterwards; every fifth case adds a schema whose enumerator values (negative ones too), array sizes, field / service / method ids sit at and beyond the 32-bit widths of reflection.fcp.  distinct = grammar-feature set of "
     "the description."
 )
 ASSUMPTIONS = [
-    "strings are 7-bit ASCII; enumerator values fit i32, ids fit u32",
+    "integers wider than the 32-bit fields reflection.fcp gives them are judged against the defect model of known finding reflection-integers-truncated-to-32-bits",
     "devices are not part of the reflection schema (reflection.fcp has no Device struct)",
     "extension values are reflected as python str() of the parsed value",
 ]
+
+
+K_NARROW = "reflection-integers-truncated-to-32-bits"
+K_SIGNED_MIN = "serde-signed-min-decodes-positive"
+
+
+def narrowed(rec):
+    """Defect model of known finding K_NARROW: reflection.fcp stores enumerator values as i32 and array
+    sizes / field ids / service ids / method ids as u32, and the encoder keeps the low 32 bits of
+    anything wider.  Returns (record as reflection.fcp can hold it, list of (path, declared value))."""
+    import copy
+
+    rec2 = copy.deepcopy(rec)
+    lost = []
+
+    def u32(d, key, path):
+        v = d[key]
+        if isinstance(v, int) and not 0 <= v < 2 ** 32:
+            lost.append((path + "/" + key, v))
+            d[key] = v % 2 ** 32
+
+    for e in rec2.get("enums", []):
+        for en in e["enumeration"]:
+            v = en["value"]
+            if isinstance(v, int) and not -(2 ** 31) <= v < 2 ** 31:
+                lost.append(("enum %s/%s" % (e["name"], en["name"]), v))
+                en["value"] = (v + 2 ** 31) % 2 ** 32 - 2 ** 31
+    for st in rec2.get("structs", []):
+        for f in st["fields"]:
+            u32(f, "field_id", "struct %s/%s" % (st["name"], f["name"]))
+            for t in f["type"]:
+                u32(t, "size", "struct %s/%s/type" % (st["name"], f["name"]))
+    for sv in rec2.get("services", []):
+        u32(sv, "id", "service %s" % sv["name"])
+        for m in sv["methods"]:
+            u32(m, "id", "service %s/%s" % (sv["name"], m["name"]))
+    return rec2, lost
+
+
+def signed_min_model(rec):
+    """Known finding K_SIGNED_MIN applied to the only i32 field of reflection.fcp that a schema controls."""
+    import copy
+
+    rec2 = copy.deepcopy(rec)
+    hit = False
+    for e in rec2.get("enums", []):
+        for en in e["enumeration"]:
+            if en["value"] == -(2 ** 31):
+                en["value"] = 2 ** 31
+                hit = True
+    return rec2, hit
 
 
 def shards(tier):
@@ -184,7 +235,10 @@ def check(run, decls, text, feats_sig=None, history_rng=None):
         run.violation("the reflection record cannot be encoded with the reflection schema: %s: %s" % (type(e).__name__, e), case)
         return
     run.count("records_encoded")
-    want = ref.encode(mine, "Fcp", rec)
+    rec32, lost = narrowed(rec)
+    if lost:
+        case["integers_wider_than_the_reflection_fields"] = lost[:6]
+    want = ref.encode(mine, "Fcp", rec32)
     if data != want:
         case["bytes"] = data[:200]
         run.violation("reflection bytes differ from the canonical encoding under reflection.fcp (first difference at byte %d)" % next((i for i, (a, b) in enumerate(zip(data, want)) if a != b), min(len(data), len(want))), case)
@@ -195,6 +249,16 @@ def check(run, decls, text, feats_sig=None, history_rng=None):
         run.violation("decoding the reflection bytes raised %s: %s" % (type(e).__name__, e), case)
         return
     if not ref.same(back, rec):
+        # two mechanisms are known and modelled exactly; anything else is a violation
+        model, hit = signed_min_model(rec32)
+        if (lost or hit) and ref.same(back, model):
+            if lost:
+                run.known_finding(K_NARROW, "decode(encode(reflection)) returns %s for %s" % ([v % 2 ** 32 for _, v in lost[:3]], lost[:3]), {"schema": text[:600]})
+            if hit:
+                run.known_finding(K_SIGNED_MIN, "an enumerator valued -2^31 comes back as +2^31", {"schema": text[:600]})
+            run.count("records_round_tripped_up_to_known_findings")
+            run.case(sig=feats_sig)
+            return
         run.violation("decode(encode(reflection)) differs from the reflection record", case)
         return
     run.count("records_round_tripped")
@@ -277,6 +341,34 @@ def cli_encode(run, decls, text, k):
         shutil.rmtree(tmp, ignore_errors=True)
 
 
+WIDE_ENUM = [-1, -2, -255, -(2 ** 31) + 1, -(2 ** 31), 2 ** 31 - 1, 2 ** 31, 2 ** 32 - 1, 2 ** 32, 2 ** 32 + 5, 2 ** 40, 2 ** 63 - 1, -(2 ** 31) - 1, -(2 ** 40)]
+WIDE_U32 = [65535, 65536, 65540, 2 ** 31, 2 ** 32 - 1, 2 ** 32, 2 ** 32 + 3, 2 ** 40 + 7]
+
+
+def wide_integers(run, i):
+    """Schemas whose integers sit at and beyond the widths reflection.fcp gives them: enumerator values
+    (i32), array sizes, field ids, service and method ids (u32)."""
+    r = run.rng("wide", i)
+    vals = []
+    for v in r.sample(WIDE_ENUM, r.randint(1, 4)) + [0]:
+        vals.append(("V%d" % len(vals), v))
+    r.shuffle(vals)
+    ids = r.sample(WIDE_U32 + [0, 1, 2], 3)
+    fields = [
+        {"name": "kind", "id": ids[0], "type": ("enum", "Wide")},
+        {"name": "block", "id": ids[1], "type": ("arr", ("u", r.choice([1, 8, 13])), r.choice(WIDE_U32))},
+        {"name": "tail", "id": ids[2], "type": ("opt", ("arr", ("dyn", ("i", 7)), r.choice(WIDE_U32)))},
+    ]
+    decls = [{"kind": "enum", "name": "Wide", "values": vals}, {"kind": "struct", "name": "Holder", "fields": fields}]
+    if r.random() < 0.6:
+        decls.append({"kind": "service", "name": "Svc", "id": r.choice(WIDE_U32), "methods": [
+            {"name": "get", "id": r.choice(WIDE_U32), "input": "Holder", "output": "Holder"},
+            {"name": "put", "id": r.choice([0, 1, 255]), "input": "Holder", "output": "Holder"}]})
+    klass = "beyond" if narrowed(RR.expected(decls))[1] else "within"
+    check(run, decls, S.print_schema(decls), "wide-integers|%s|%d" % (klass, len(vals)))
+    run.count("wide_integer_schemas_" + klass)
+
+
 def run(run):
     import fcp.specs.v2 as V2
     import fcp.specs.impl as IM
@@ -299,12 +391,14 @@ def run(run):
             cli_encode(run, decls, S.print_schema(decls), i)
         if i % 4 == 1:
             split_reflection(run, i, decls)
+        if i % 5 == 2:
+            wide_integers(run, i)
     reach.stop()
     run.extra["reach"] = {k: v for k, v in reach.summary(40).items() if "reflection" in k}
 
 
 def conclude(run):
-    run.require("cli_encode_runs", "split_schema_reflections", "reflections_after_other_uses", "reflections", "records_faithful", "records_encoded", "records_round_tripped", "metas_checked",
+    run.require("wide_integer_schemas_within", "cli_encode_runs", "split_schema_reflections", "reflections_after_other_uses", "reflections", "records_faithful", "records_encoded", "records_round_tripped", "metas_checked",
                 "feature/impl:signal-block", "feature/param:range", "feature/param:unit", "feature/decl:service", "feature/impl:extension-field")
     feats = {k[8:]: v for k, v in run.counters.items() if k.startswith("feature/")}
     for k in [k for k in run.counters if k.startswith("feature/")]:
